@@ -103,6 +103,7 @@ var exprSites = []exprSite{
 	{"abandoned_self", "chunkPayloadData.abandoned", "ret", "p._abandoned", 0, 1},
 	// every path that marks or picks chunks for retransmission, and the advance of the peer ack point, look at abandoned()
 	{"markAll_skips", "payloadQueue.markAllToRetrasmit", "cond", "abandoned()", 0, 1},
+	{"rtx_skipsAbandoned", "Association.getDataPacketsToRetransmit", "cond", "abandoned()", 0, 1},
 	{"miss_eligible", "Association.processFastRetransmission", "cond", "abandoned()", 0, 1},
 	{"fastRtx_skipsDone", "Association.gatherOutboundFastRetransmissionPackets", "cond", "abandoned()", 0, 1},
 	{"rackSack_skips", "Association.onRackAfterSACK", "cond", "abandoned()", 0, 1},
